@@ -16,7 +16,7 @@ CHECKS = {
                  "with a reader present or the scheduler pre-empted an enabled task; distinct = distinct hash of the full "
                  "(task, yield point) schedule plus monitor event log. One history in 12 (quick) or 3 (thorough) runs on the REAL cdb / rocksdb "
                  "drivers instead (queries through ServeDNS are the readers, reloads publish real files, unreadable and key-less targets, injected "
-                 "errors and delays, shutdown at a seeded position) under the same monitor, plus a count of RocksDB secondary log directories; one in three of those is a whole-process run "
+                 "errors and delays, reload signals of a task of their own and of the periodic reloader that may be in flight when shutdown begins, shutdown at a seeded position) under the same monitor, plus a count of RocksDB secondary log directories; one in three of those is a whole-process run "
                  "(real fbserver.Server: watcher loops, control files, SIGHUP, LogMapAge and DumpBackendStats tickers that outlive Server.Shutdown)."),
         "components": {
             "real": REAL_SERVER,
@@ -116,7 +116,7 @@ CHECKS = {
         "level": "exploration",
         "budget": {"quick": 25, "thorough": 400},
         "rule": ("each evaluation writes a real CDB file (explicit pairs with empty / repeated / long keys and values plus up to 3000 (quick) or "
-                 "30000 (thorough) pseudo-random pairs), then runs cdb.Dump and cdb.Make over simulated streams: read sizes cycled from "
+                 "30000 (thorough) pseudo-random pairs; in half of the runs every pair is handed to Put in the same two buffers, overwritten for the next pair), then runs cdb.Dump and cdb.Make over simulated streams: read sizes cycled from "
                  "{asked,1,2,3,4,5,7,4095,4096,4097} (all legal under io.Reader) and, in the fault population, one read or write error at a seeded "
                  "offset. Without injected errors both must succeed and Make(Dump(file)) must be byte-identical to the file and the dump must list "
                  "exactly the written pairs in order; with an injected error a call may fail but never return nil with wrong bytes. Lookups "
@@ -130,7 +130,7 @@ CHECKS = {
             "not_run": ["no scheduler: nothing in this property is concurrent"],
         },
         "assumptions": ["the written file is produced by the package's own writer; Make is expected to lay out hash tables identically (cdbmake layout)"],
-        "required_probes": {"quick": ["file_larger_than_one_buffer", "keys_looked_up"], "thorough": ["file_larger_than_one_buffer", "keys_looked_up"]},
+        "required_probes": {"quick": ["file_larger_than_one_buffer", "keys_looked_up", "pairs_written_from_reused_buffers"], "thorough": ["file_larger_than_one_buffer", "keys_looked_up", "pairs_written_from_reused_buffers"]},
     },
     "C15": {
         "test": "TestC15",
@@ -165,7 +165,7 @@ CHECKS = {
                  "batch writers are scheduled by the seeded scheduler at their channel operations and around the batch read-modify-write; the input "
                  "reader delivers seeded short reads and, in the fault population, fails at a seeded offset. The full dump of the product must equal "
                  "the multiset the line-by-line codec emits sequentially (plus range points and feature record); a rejected line or read error must "
-                 "fail the compilation; a compilation that was handed a failing RocksDB call (1 run in 8 of the RocksDB targets) may fail, but if it reports success the database must be right; with no fault pending it must terminate (a state with nothing enabled and no timer is a deadlock). Thorough "
+                 "fail the compilation; a compilation that was handed a failing RocksDB call (1 run in 6 of the RocksDB targets) may fail, but if it reports success the database must be right; with no fault pending it must terminate (a state with nothing enabled and no timer is a deadlock). Thorough "
                  "tier: 1 in 30 runs compiles 70000-100000 records on real parallelism with the hooks in perturbation mode so that the bulk loader "
                  "splits into several buckets; 1 run in 12 (both tiers) compiles 1500-4000 records in batch mode (batch size 5/20/40, parallelism 0/2/4/8) free-running on four "
                  "real threads, so that many small batches sharing hot keys are in flight and interleavings finer than the yield points are reached. "
@@ -269,6 +269,7 @@ CHECKS = {
     },
     "C20": {
         "test": "TestC20",
+        "race_tier": {"test": "TestC20Free", "race": True, "budget": {"quick": 6, "thorough": 120}},
         "level": "exploration",
         "budget": {"quick": 45, "thorough": 900},
         "rule": ("each evaluation starts the real fbserver.Server (handler chain as shipped: serveMux, maxAnswer, ANY refusal on/off, whoami on/off, "
